@@ -124,6 +124,16 @@ Definition c07_rpc_check (worlds : list pyenv) (c : nat * list (str * str) * val
       jres_eqb (do d <- rpc_dump_params std_hfun fixed E cfg v; lres_val (rpc_load fixed E cfg d)) got
   end.
 
+(** the same under a configuration with its own serialisation-method name [sm] *)
+Definition c07_rpcx_check (worlds : list pyenv) (c : nat * str * list (str * str) * val * res val) : bool :=
+  let '(i, sm, cl, v, got) := c in
+  match nth_error worlds i with
+  | None => false
+  | Some E =>
+      let cfg := mkCfg true sm "_ignore" [] cl in
+      jres_eqb (do d <- rpc_dump_params std_hfun fixed E cfg v; lres_val (rpc_load fixed E cfg d)) got
+  end.
+
 (** ** C20: dump with handlers, ignore lists and configured names.
     (world index, config, explicit serialize_method / ignore_attribute / ignore arguments, value, observed dump) *)
 Definition c20_check (worlds : list pyenv)
